@@ -14,6 +14,7 @@
 //   rii <U> <E> <seed> <samplesize|-> <n>          RandomIntegerIterator<U,E>
 //   mii <seed> <size> <p> <n>                      ModularRandIter<Modular<Integer>>
 //   ru <K> <seed> <n>                              RecInt::rand(ruint<K>) after RecInt::srand(seed); prints values ; limbs of a twin mt19937_64
+//   rm <K> <mg> <p> <seed> <n>                     rmint<K,MGI> (mg=0) / rmint<K,MGA> (mg=1): rand(a), a.random(); rint<K> (mg=2): rand(a)
 //   modru <type> <p> <op> <seed> <n>               Modular<ruint<K>> / Montgomery<ruint<K>> random / nzrandom ; values ; limbs consumed
 #include <iostream>
 #include <sstream>
@@ -446,6 +447,42 @@ template <class Ring> struct RuRun {
         return out[0];
     }
 };
+
+// rmint<K, MGI|MGA>: rand(a) / a.random() after init_module(p); prints the stored value and the value converted back
+template <size_t K, size_t MG> static std::string rm_once(const std::string& ps, uint64_t seed, int n) {
+    typedef RecInt::rmint<K, MG> RM;
+    RecInt::ruint<K> p = IO<RecInt::ruint<K> >::parse(ps);
+    RM::init_module(p);
+    RecInt::srand(seed);
+    std::mt19937_64 twin; twin.seed(seed);
+    std::ostringstream o, l;
+    for (int i = 0; i < n; ++i) {
+        RM a;
+        if (i % 2) a.random(); else RecInt::rand(a);
+        Integer v; { RecInt::ruint<K> u = RecInt::get_ruint(a); v = Integer(u); }
+        o << (i ? " " : "") << IO<RecInt::ruint<K> >::show(a.Value) << ":" << S(v);
+        for (size_t j = 0; j < (size_t(1) << (K - 6)); ++j) l << " " << (unsigned long long) twin();
+    }
+    return o.str() + " ;" + l.str();
+}
+template <size_t K> static std::string ri_once(uint64_t seed, int n) {
+    RecInt::srand(seed);
+    std::mt19937_64 twin; twin.seed(seed);
+    std::ostringstream o, l;
+    for (int i = 0; i < n; ++i) {
+        RecInt::rint<K> a; RecInt::rand(a);
+        o << (i ? " " : "") << IO<RecInt::ruint<K> >::show(a.Value);
+        for (size_t j = 0; j < (size_t(1) << (K - 6)); ++j) l << " " << (unsigned long long) twin();
+    }
+    return o.str() + " ;" + l.str();
+}
+struct RmCtx { int K; int mg; std::string p; uint64_t seed; int n; };
+static std::string rm_f(void* c) {
+    RmCtx* x = (RmCtx*) c;
+    if (x->mg == 2) { switch (x->K) { case 6: return ri_once<6>(x->seed, x->n); case 7: return ri_once<7>(x->seed, x->n); case 8: return ri_once<8>(x->seed, x->n); default: return "UNKNOWN-K"; } }
+    if (x->mg == 0) { switch (x->K) { case 6: return rm_once<6, RecInt::MGI>(x->p, x->seed, x->n); case 7: return rm_once<7, RecInt::MGI>(x->p, x->seed, x->n); case 8: return rm_once<8, RecInt::MGI>(x->p, x->seed, x->n); default: return "UNKNOWN-K"; } }
+    switch (x->K) { case 6: return rm_once<6, RecInt::MGA>(x->p, x->seed, x->n); case 7: return rm_once<7, RecInt::MGA>(x->p, x->seed, x->n); case 8: return rm_once<8, RecInt::MGA>(x->p, x->seed, x->n); default: return "UNKNOWN-K"; }
+}
 #define REGU(name, ...) rurings[name] = &RuRun<__VA_ARGS__ >::go
 
 // ---------------------------------------------------------------- main loop with a per-case time limit
@@ -513,6 +550,11 @@ static std::string dispatch(const std::string& kind, const Args& a) {
         if (a.size() < 4) return "BAD-LINE";
         MiiCtx c; c.seed = pu64(a[0]); c.size = a[1]; c.p = a[2]; c.n = atoi(a[3].c_str());
         return c.seed ? twice(mii_f, &c) : mii_f(&c);
+    }
+    if (kind == "rm") {     // rm <K> <mg: 0 = rmint<K,MGI>, 1 = rmint<K,MGA>, 2 = rint<K>> <p> <seed> <n>
+        if (a.size() < 5) return "BAD-LINE";
+        RmCtx c; c.K = atoi(a[0].c_str()); c.mg = atoi(a[1].c_str()); c.p = a[2]; c.seed = pu64(a[3]); c.n = atoi(a[4].c_str());
+        return twice(rm_f, &c);
     }
     if (kind == "ru") {
         if (a.size() < 3) return "BAD-LINE";
